@@ -104,7 +104,7 @@ SessionVerdict(x) ==
                 [] x.clause = "C17.frozen" -> C17Frozen(x.x)
                 [] x.clause = "C09.alt-stream" -> C09AltStream(c[1], x.x)
                 [] x.clause = "C16.history" -> C16History(c[1], x.x)
-                [] x.clause = "C16.eager-equal" -> C12Equiv(c[1], c[2])
+                [] x.clause = "C16.eager-equal" -> C16Eager(c[1], c[2])
                 [] x.clause = "C04.equiv" -> C04Equiv(n, c[1], c[2])
                 [] x.clause = "C10.paths" -> C12Equiv(c[1], c[2])
                 [] x.clause = "C10.bitref" -> C10BitRef(n, c[1])
